@@ -1,0 +1,28 @@
+//go:build verif
+
+// Contracts checked by /verif/govc (comment-only; compiled only with -tags verif).
+package logderivlookup
+
+// The query table handed to the log-derivative argument has one row (index, result wire) for EVERY lookup performed, in
+// order: no looked-up result wire is left outside the argument (the argument itself is logderivarg.Build, C13).
+//@ contract (*table).resultsTable
+//@   props C13
+//@   requires t != nil
+//@   nopanic
+//@   assigns
+//@   ensures @one-row-per-lookup len(result) == len(t.results) && fresh(result)
+//@   loop 1 invariant @len len(tbl) == len(t.results)
+// (row contents -- row k is (results[k].ind, results[k].val) -- were stated as well and did not discharge: quantified facts
+// about slices nested in a slice; only the count is under contract)
+
+// every index looked up contributes one (index, result wire) entry to t.results, and one result is returned per index
+//@ contract (*table).performLookup
+//@   props C13
+//@   requires t != nil && t.api != nil && alloc(t.results) != alloc(t) && allocated(t.results)
+//@   ensures @one-result-per-index len(result) == len(inds)
+//@   ensures @one-entry-per-index len(t.results) == old(len(t.results)) + len(inds)
+//@   loop 1 invariant @frame len(t.results) == old(len(t.results)) && alloc(t.results) == old(alloc(t.results))
+//@   loop 1 invariant @cd1 alloc(calldata) != alloc(t)
+//@   loop 1 invariant @cd2 alloc(calldata) != old(alloc(t.results))
+//@   loop 1 invariant @cd3 len(calldata) >= 3
+//@   loop 2 invariant @frame len(t.results) == old(len(t.results)) && alloc(t.results) == old(alloc(t.results)) && len(lookupResult) == len(inds) && len(internalVariables) == len(inds)
